@@ -693,6 +693,99 @@ let run_crash toks =
      | _ -> failwith "crash kind")
   | _ -> failwith "bad crash case"
 
+(* ------------------------------------------------------------------------- singleflight (C20): trace acceptance *)
+let rec nat_of_int n = if n <= 0 then O else S (nat_of_int (n - 1))
+let rec int_of_nat = function O -> 0 | S n -> 1 + int_of_nat n
+let sf_out_str = function OVal v -> "val:" ^ dec_n v | OErr e -> "err:" ^ dec_n e | OPanic -> "panic"
+let sf_res_str = function
+  | RVal v -> "val:" ^ dec_n v | RWaiterErr e -> "waitererr:" ^ dec_n e | RJoinErr -> "joinerr" | ROwnerPanicked -> "ownerpanicked"
+  | RNoResult -> "noresult" | RCallMissing -> "callmissing"
+let sf_task_str = function TNotSpawned -> "n" | TSpawned -> "s" | TRunning -> "r" | TGotOutcome o -> "g" ^ sf_out_str o | TCompleted o -> "c" ^ sf_out_str o | TExited o -> "x" ^ sf_out_str o
+let sf_pc_str = function
+  | CIdle -> "i" | CArrive k -> "a" ^ dec_n k
+  | CGotCall (k, cid, cr) -> Printf.sprintf "g%s.%d.%b" (dec_n k) (int_of_nat cid) cr
+  | CSpawn (k, cid, n) -> Printf.sprintf "s%s.%d.%b" (dec_n k) (int_of_nat cid) n
+  | CWait (k, cid, cr, n) -> Printf.sprintf "w%s.%d.%b.%b" (dec_n k) (int_of_nat cid) cr n
+  | CRemove (k, cid, r) -> Printf.sprintf "r%s.%d.%s" (dec_n k) (int_of_nat cid) (sf_res_str r)
+  | CReturned (cid, r, o) -> Printf.sprintf "R%d.%s.%b" (int_of_nat cid) (sf_res_str r) o
+
+let sf_accepts (nc : int) (nk : int) (trace : string list array) : (bool * int) =
+  let canon (s : sfstate) =
+    let b = Buffer.create 64 in
+    for c = 0 to nc - 1 do Buffer.add_string b (sf_pc_str (s.sf_callers (nat_of_int c))); Buffer.add_char b '|' done;
+    for cid = 0 to int_of_nat s.sf_next - 1 do
+      let x = s.sf_calls (nat_of_int cid) in
+      Buffer.add_string b (sf_task_str x.c_task); Buffer.add_char b (match x.c_res with Some _ -> '+' | None -> '-'); Buffer.add_char b '|' done;
+    for k = 0 to nk - 1 do Buffer.add_string b (match s.sf_map (n_of_int k) with Some cid -> string_of_int (int_of_nat cid) | None -> "_"); Buffer.add_char b '|' done;
+    Buffer.contents b in
+  let seen = Hashtbl.create 1024 in
+  let best = ref 0 in
+  let cid_of_creator (s : sfstate) c pred =
+    let r = ref None in
+    for cid = 0 to int_of_nat s.sf_next - 1 do
+      let x = s.sf_calls (nat_of_int cid) in
+      if int_of_nat x.c_creator = c && pred x.c_task then r := Some (nat_of_int cid) done; !r in
+  let rec go (s : sfstate) (i : int) : bool =
+    if i > !best then best := i;
+    if i = Array.length trace then true else begin
+      let key = canon s ^ "#" ^ string_of_int i in
+      if Hashtbl.mem seen key then false else begin
+        Hashtbl.add seen key ();
+        (* consume the next observed event if the model allows it now *)
+        let consumed =
+          (match trace.(i) with
+           | ["arrive"; c; k] -> (match sf_step s (EArrive (nat_of_int (int_of_string c), n_of_int (int_of_string k))) with Some s1 -> go s1 (i + 1) | None -> false)
+           | ["start"; c] ->
+             (match cid_of_creator s (int_of_string c) (fun t -> t = TSpawned) with
+              | Some cid -> (match sf_step s (ETaskStart cid) with Some s1 -> go s1 (i + 1) | None -> false)
+              | None -> false)
+           | ["end"; c; o] ->
+             let o = (match String.split_on_char ':' o with ["val"; v] -> OVal (n_of_string v) | ["err"; e] -> OErr (n_of_string e) | _ -> OPanic) in
+             (match cid_of_creator s (int_of_string c) (fun t -> t = TRunning) with
+              | Some cid -> (match sf_step s (ETaskOutcome (cid, o)) with Some s1 -> go s1 (i + 1) | None -> false)
+              | None -> false)
+           | ["ret"; c; r; owner] ->
+             (match s.sf_callers (nat_of_int (int_of_string c)) with
+              | CReturned (_, r', o') -> if sf_res_str r' = r && string_of_bool o' = owner then go s (i + 1) else false
+              | _ -> false)
+           | _ -> failwith "bad trace event") in
+        if consumed then true else begin
+          (* otherwise try every enabled internal step *)
+          let ok = ref false in
+          let try_ev e = if not !ok then (match sf_step s e with Some s1 -> if go s1 i then ok := true | None -> ()) in
+          for c = 0 to nc - 1 do try_ev (EStep (nat_of_int c)) done;
+          for cid = 0 to int_of_nat s.sf_next - 1 do try_ev (ETaskComplete (nat_of_int cid)); try_ev (ETaskExit (nat_of_int cid)) done;
+          !ok
+        end
+      end
+    end in
+  let r = go sf_init 0 in (r, !best)
+
+let run_sf toks =
+  let (toks, aux) = split_aux toks in
+  let ops = split_ops toks in
+  let nc = List.fold_left (fun a op -> match op with "A" :: c :: _ -> Stdlib.max a (int_of_string c + 1) | _ -> a) 0 ops in
+  let text = String.concat " " aux in
+  (* flavours separated by " || ", events by " ; " *)
+  let split_str sep s =
+    let ls = String.length sep in
+    let rec go acc start i =
+      if i + ls > String.length s then List.rev (String.sub s start (String.length s - start) :: acc)
+      else if String.sub s i ls = sep then go (String.sub s start (i - start) :: acc) (i + ls) (i + ls)
+      else go acc start (i + 1) in
+    go [] 0 0 in
+  List.map (fun fl ->
+      match split_str ": " fl with
+      | name :: rest ->
+        let evs = List.filter (fun x -> x <> "") (split_str " ; " (String.concat ": " rest)) in
+        let trace = Array.of_list (List.map (fun e ->
+            match String.split_on_char ' ' (String.trim e) with
+            | ["arrive"; c; k] -> ["arrive"; c; String.sub k 1 (String.length k - 1)]
+            | l -> l) evs) in
+        let (ok, best) = sf_accepts nc 4 trace in
+        if ok then String.trim name ^ " accepted" else Printf.sprintf "%s REJECTED: the model has no run that produces event %d (%s)" (String.trim name) best (if best < Array.length trace then String.concat " " trace.(best) else "-")
+      | [] -> "bad aux") (List.filter (fun x -> String.trim x <> "") (split_str " || " text))
+
 let () =
   let stream = Sys.argv.(1) in
   let ic = open_in Sys.argv.(2) in
@@ -712,6 +805,7 @@ let () =
              | "dd" -> run_dd toks
              | "cache" -> run_cache toks
              | "crash" -> run_crash toks
+             | "sf" -> run_sf toks
              | "c07" -> run_c07 toks
              | "bg4" -> run_bg4 toks
              | "c08" -> run_c08 toks
